@@ -212,6 +212,9 @@ Record expanded_entry := mkE { e_name : string; e_member : member; e_src : path;
 Definition fres_eqb (a b : fres) : bool :=
   match a, b with FMod p, FMod q => path_eqb p q | _, _ => false end.
 
+Definition relineno (m : member) (ln : nat) : member :=
+  match m with MAlias t _ s => MAlias t ln s | MWrap p i _ => MWrap p i ln | other => other end.
+
 Definition apply_one (fuel : nat) (t : table) (top : string) (mp : path) (ms : list (string * member)) (e : expanded_entry)
   : list (string * member) :=
   let n := e_name e in
@@ -226,7 +229,9 @@ Definition apply_one (fuel : nat) (t : table) (top : string) (mp : path) (ms : l
         let t' := set_mod t mp (mkSt ms [] None) in
         let prev := final fuel t' top old (mp ++ [n]) in
         match prev with
-        | FMod _ => if fres_eqb (final fuel t' top new (mp ++ [n])) prev then ms else assign n new ms
+        | FMod _ => if fres_eqb (final fuel t' top new (mp ++ [n])) prev
+                    then (if is_alias old then assign n (relineno old (e_ln e)) ms else ms)   (* kept, but rebound at this line *)
+                    else assign n new ms
         | _ => assign n new ms
         end
       else ms
@@ -255,22 +260,7 @@ Definition apply_events (fuel : nat) (t : table) (top : string) (mp : path) (ms 
                     let ms := fst acc in
                     let ms' := apply_one fuel t top mp ms e in
                     let ev := match lookup (e_name e) ms, lookup (e_name e) ms' with
-                              | Some old, Some new => if is_alias old && negb (member_eqb old new) then [(mp, e_name e, old)] else []
-                              | _, _ => []
-                              end in
-                    (ms', snd acc ++ ev)) es (ms, [])).
-
-(* entries whose overwrite of an older alias member was skipped by the special case (the member keeps its older line number) *)
-Definition special_skips (fuel : nat) (t : table) (top : string) (mp : path) (ms : list (string * member))
-  (es : list expanded_entry) : list (path * string) :=
-  snd (fold_left (fun acc e =>
-                    let ms := fst acc in
-                    let ms' := apply_one fuel t top mp ms e in
-                    let self_alias := is_alias (e_member e) && path_eqb (alias_target_path (e_member e)) (mp ++ [e_name e]) in
-                    let ev := match lookup (e_name e) ms, lookup (e_name e) ms' with
-                              | Some old, Some new =>
-                                  if is_alias old && negb self_alias && Nat.ltb (member_lineno old) (e_ln e) && member_eqb old new
-                                  then [(mp, e_name e)] else []
+                              | Some old, Some new => if is_alias old && negb (member_eqb (relineno old 0) (relineno new 0)) then [(mp, e_name e, old)] else []
                               | _, _ => []
                               end in
                     (ms', snd acc ++ ev)) es (ms, [])).
@@ -330,79 +320,73 @@ Fixpoint expx (fuel : nat) (top : string) (mp : path) (s : xstate) : outcome xst
       match get_mod (xt s) mp with
       | None => Done s
       | Some st =>
-          match exports st with
-          | None => Done s                                  (* returns before recursing into submodules *)
-          | Some ex =>
-              let items :=
-                fix go (its : list item) (acc : list item) (s : xstate) : outcome (list item * xstate) :=
-                  match its with
-                  | [] => Done (acc, s)
-                  | IStr x :: r => go r (acc ++ [IStr x]) s
-                  | IRef l a :: r =>
-                      match ref_module_path mp st l a with
-                      | None => go r acc (mkX (xt s) (xseen s) true (xdropped s) (xdone s) (xpending s))
-                      | Some p =>
-                          match lookup_path (xt s) top p with
-                          | LMod q =>
-                              let after := if mem_path q (xseen s) then Done s else expx f top q s in
-                              match after with
-                              | Done s' =>
-                                  match get_mod (xt s') q with
-                                  | Some stq => match exports stq with
-                                                | Some l' =>
-                                                    let pend := negb (mem_path q (xdone s')) && has_ref (Some l') in
-                                                    let s2 := if pend then mkX (xt s') (xseen s') (xunsup s') (xdropped s') (xdone s')
-                                                                                   (xpending s' ++ [(mp, q)]) else s' in
-                                                    go r (merge_exports acc l') s2
-                                                | None => go r acc s'            (* TypeError caught, warning *)
-                                                end
-                                  | None => go r acc s'
-                                  end
-                              | other => match other with Crash e => Crash e | _ => OutOfFuel end
-                              end
-                          | LMem amp an am =>
-                              (* next_module is not a module object *)
-                              if is_alias am then
-                                if mem_path (amp ++ [an]) (xseen s) then go r acc s
-                                else
-                                  let s1 := mkX (xt s) ((amp ++ [an]) :: xseen s) (xunsup s) (xdropped s) (xdone s) (xpending s) in
-                                  match final (S (List.length (xt s) * 8 + 64)) (xt s) top am (amp ++ [an]) with
-                                  | FUnres => Crash "AliasResolutionError"
-                                  | FObj _ _ => go r acc s1
-                                  | FMod q => match get_mod (xt s) q with
-                                              | Some stq => match exports stq with
-                                                            | Some _ => Crash "AttributeError"   (* Alias.exports has no setter *)
-                                                            | None => go r acc s1
-                                                            end
-                                              | None => go r acc s1
-                                              end
-                                  end
-                              else (* an object that is not a module (its `exports` is None): TypeError caught, nothing added *)
-                                   go r acc (mkX (xt s) (xseen s) (xunsup s) (xdropped s ++ [(mp, l)]) (xdone s) (xpending s))
-                          | LNone => go r acc (mkX (xt s) (xseen s) (xunsup s) (xdropped s ++ [(mp, l)]) (xdone s) (xpending s))   (* KeyError: continue *)
-                          | LUnsupported => go r acc (mkX (xt s) (xseen s) true (xdropped s) (xdone s) (xpending s))
+          let items :=
+            fix go (its : list item) (acc : list item) (s : xstate) : outcome (list item * xstate) :=
+              match its with
+              | [] => Done (acc, s)
+              | IStr x :: r => go r (acc ++ [IStr x]) s
+              | IRef l a :: r =>
+                  (* None: outside the model; Some None: nothing is added (KeyError / unresolvable alias: continue; an object that is
+                     not a module: TypeError caught); Some (Some q): the module whose __all__ is spliced in, an alias being followed *)
+                  let tgt : option (option path) :=
+                    match ref_module_path mp st l a with
+                    | None => None
+                    | Some p =>
+                        match lookup_path (xt s) top p with
+                        | LMod q => Some (Some q)
+                        | LMem amp an am =>
+                            if is_alias am
+                            then match final (S (List.length (xt s) * 8 + 64)) (xt s) top am (amp ++ [an]) with
+                                 | FMod q => Some (Some q)
+                                 | _ => Some None
+                                 end
+                            else Some None
+                        | LNone => Some None
+                        | LUnsupported => None
+                        end
+                    end in
+                  match tgt with
+                  | None => go r acc (mkX (xt s) (xseen s) true (xdropped s) (xdone s) (xpending s))
+                  | Some None => go r acc (mkX (xt s) (xseen s) (xunsup s) (xdropped s ++ [(mp, l)]) (xdone s) (xpending s))
+                  | Some (Some q) =>
+                      let after := if mem_path q (xseen s) then Done s else expx f top q s in
+                      match after with
+                      | Done s' =>
+                          match get_mod (xt s') q with
+                          | Some stq => match exports stq with
+                                        | Some l' =>
+                                            let pend := negb (mem_path q (xdone s')) && has_ref (Some l') in
+                                            let s2 := if pend then mkX (xt s') (xseen s') (xunsup s') (xdropped s') (xdone s')
+                                                                           (xpending s' ++ [(mp, q)]) else s' in
+                                            go r (merge_exports acc l') s2
+                                        | None => go r acc s'            (* TypeError caught, warning *)
+                                        end
+                          | None => go r acc s'
                           end
+                      | other => match other with Crash e => Crash e | _ => OutOfFuel end
                       end
+                  end
+              end in
+          (* a module without __all__ has nothing to expand, but its submodules still do *)
+          match items (match exports st with Some ex => ex | None => [] end) [] s with
+          | Done (expanded, s') =>
+              let t'' := match exports st with Some _ => set_exports (xt s') mp (Some expanded) | None => xt s' end in
+              let s'' := mkX t'' (xseen s') (xunsup s') (xdropped s') (mp :: xdone s') (xpending s') in
+              let subs :=
+                fix go (ms : list (string * member)) (s : xstate) : outcome xstate :=
+                  match ms with
+                  | [] => Done s
+                  | (c, MSub) :: r =>
+                      if mem_path (mp ++ [c]) (xseen s) then go r s
+                      else match expx f top (mp ++ [c]) s with
+                           | Done s' => go r s'
+                           | other => other
+                           end
+                  | _ :: r => go r s
                   end in
-              match items ex [] s with
-              | Done (expanded, s') =>
-                  let s'' := mkX (set_exports (xt s') mp (Some expanded)) (xseen s') (xunsup s') (xdropped s') (mp :: xdone s') (xpending s') in
-                  let subs :=
-                    fix go (ms : list (string * member)) (s : xstate) : outcome xstate :=
-                      match ms with
-                      | [] => Done s
-                      | (c, MSub) :: r =>
-                          if mem_path (mp ++ [c]) (xseen s) then go r s
-                          else match expx f top (mp ++ [c]) s with
-                               | Done s' => go r s'
-                               | other => other
-                               end
-                      | _ :: r => go r s
-                      end in
-                  subs (members st) s''
-              | Crash e => Crash e
-              | OutOfFuel => OutOfFuel
-              end
+              subs (members st) s''
+          | Crash e => Crash e
+          | OutOfFuel => OutOfFuel
           end
       end
   end.
@@ -413,9 +397,7 @@ Fixpoint expx (fuel : nat) (top : string) (mp : path) (s : xstate) : outcome xst
 Record wstate := mkW { wt : table; wseen : list path; wdone : list path;
                        wpending : list (path * path);       (* (reader, module read while its own expansion was pending) *)
                        wunsup : bool;
-                       wreplaced : list (path * string * member);
-                       wspecial : list (path * string) }.       (* overwrites skipped by the submodule special case although the
-                                                                     existing member is an (older) alias: its line number stays *)
+                       wreplaced : list (path * string * member) }.
 
 Definition set_mod_members (t : table) (p : path) (ms : list (string * member)) : table :=
   match get_mod t p with Some st => set_mod t p (set_members st ms) | None => t end.
@@ -424,7 +406,7 @@ Fixpoint expw (fuel : nat) (top : string) (mp : path) (s : wstate) : outcome wst
   match fuel with
   | 0 => OutOfFuel
   | S f =>
-      let s := mkW (wt s) (mp :: wseen s) (wdone s) (wpending s) (wunsup s) (wreplaced s) (wspecial s) in
+      let s := mkW (wt s) (mp :: wseen s) (wdone s) (wpending s) (wunsup s) (wreplaced s) in
       match get_mod (wt s) mp with
       | None => Done s
       | Some st0 =>
@@ -442,14 +424,14 @@ Fixpoint expw (fuel : nat) (top : string) (mp : path) (s : wstate) : outcome wst
                           match get_mod (wt s') q with
                           | Some stq =>
                               let pend := mem_path q (wseen s) && negb (mem_path q (wdone s')) && has_star stq in
-                              let s2 := if pend then mkW (wt s') (wseen s') (wdone s') (wpending s' ++ [(mp, q)]) (wunsup s') (wreplaced s') (wspecial s') else s' in
+                              let s2 := if pend then mkW (wt s') (wseen s') (wdone s') (wpending s' ++ [(mp, q)]) (wunsup s') (wreplaced s') else s' in
                               go r (ex ++ collect stq q ln) (rm ++ [n]) s2
                           | None => go r ex rm s'
                           end
                       | other => match other with Crash e => Crash e | _ => OutOfFuel end
                       end
                   | LNone => go r ex rm s                                         (* KeyError: continue *)
-                  | _ => go r ex rm (mkW (wt s) (wseen s) (wdone s) (wpending s) true (wreplaced s) (wspecial s))
+                  | _ => go r ex rm (mkW (wt s) (wseen s) (wdone s) (wpending s) true (wreplaced s))
                   end
               | (n, MSub) :: r =>
                   if mem_path (mp ++ [n]) (wseen s) then go r ex rm s
@@ -465,8 +447,7 @@ Fixpoint expw (fuel : nat) (top : string) (mp : path) (s : wstate) : outcome wst
               let fl := S (List.length (wt s') * 8 + 64) in
               let ms2 := apply_expanded fl (wt s') top mp ms1 ex in
               Done (mkW (set_mod_members (wt s') mp ms2) (wseen s') (mp :: wdone s') (wpending s') (wunsup s')
-                        (wreplaced s' ++ apply_events fl (wt s') top mp ms1 ex)
-                        (wspecial s' ++ special_skips fl (wt s') top mp ms1 ex))
+                        (wreplaced s' ++ apply_events fl (wt s') top mp ms1 ex))
           | Crash e => Crash e
           | OutOfFuel => OutOfFuel
           end
@@ -481,16 +462,16 @@ Definition initial_table (ms : list modsrc) : table := map (fun m => (ms_path m,
 Definition total_fuel (ms : list modsrc) : nat :=
   S (List.length ms * 4 + fold_left (fun a m => a + List.length (ms_body m)) ms 0 + 16).
 
-Record loaded := mkL { l_table : table; l_xseen : list path; l_pending : list (path * path); l_unsup : bool;
+Record loaded := mkL { l_table : table; l_pending : list (path * path); l_unsup : bool;
                        l_dropped : list (path * string); l_replaced : list (path * string * member);
-                       l_xpending : list (path * path); l_special : list (path * string) }.
+                       l_xpending : list (path * path) }.
 
 Definition griffe_load (top : string) (ms : list modsrc) : outcome loaded :=
   let fuel := total_fuel ms in
   match expx fuel top [top] (mkX (initial_table ms) [] false [] [] []) with
   | Done x =>
-      match expw fuel top [top] (mkW (xt x) [] [] [] (xunsup x) [] []) with
-      | Done w => Done (mkL (wt w) (xseen x) (wpending w) (wunsup w) (xdropped x) (wreplaced w) (xpending x) (wspecial w))
+      match expw fuel top [top] (mkW (xt x) [] [] [] (xunsup x) []) with
+      | Done w => Done (mkL (wt w) (wpending w) (wunsup w) (xdropped x) (wreplaced w) (xpending x))
       | Crash e => Crash e
       | OutOfFuel => OutOfFuel
       end
@@ -589,11 +570,6 @@ Definition module_view (fuel : nat) (t : table) (top : string) (mp : path) (st :
 Definition table_view (t : table) (top : string) : list (path * option (list item) * list (string * view)) :=
   let fuel := S (List.length t * 8 + 64) in
   map (fun pst => (fst pst, exports (snd pst), module_view fuel t top (fst pst) (snd pst))) t.
-
-(* finding F1: modules whose __all__ still holds unexpanded names because expand_exports never reached them *)
-Definition unexpanded_unreached (l : loaded) : list path :=
-  flat_map (fun pst => if has_ref (exports (snd pst)) && negb (mem_path (fst pst) (l_xseen l)) then [fst pst] else [])
-           (l_table l).
 
 (* ------------------------------------------------------------------------------------------------------------ *)
 (* models.py: what a resolved alias presents (Alias.members): the target's members re-wrapped, paths rebased      *)
@@ -878,13 +854,11 @@ Definition enc_alts (t : table) (top : string) (rp : list (path * string * membe
 Definition enc_load (top : string) (r : outcome loaded) : sexp :=
   match r with
   | Done l => SList [SStr "ok"; enc_table_view (table_view (l_table l) top);
-                     enc_paths (unexpanded_unreached l);
                      SList (map (fun rq => SList [SStr (dotted (fst rq)); SStr (dotted (snd rq))]) (l_pending l));
                      of_bool (l_unsup l);
                      SList (map (fun d => SList [SStr (dotted (fst d)); SStr (snd d)]) (l_dropped l));
                      enc_alts (l_table l) top (l_replaced l);
-                     SList (map (fun rq => SList [SStr (dotted (fst rq)); SStr (dotted (snd rq))]) (l_xpending l));
-                     SList (map (fun d => SList [SStr (dotted (fst d)); SStr (snd d)]) (l_special l))]
+                     SList (map (fun rq => SList [SStr (dotted (fst rq)); SStr (dotted (snd rq))]) (l_xpending l))]
   | Crash e => SList [SStr "crash"; SStr e]
   | OutOfFuel => SList [SStr "out-of-fuel"]
   end.
